@@ -33,6 +33,12 @@ def hasTryC : Cases → Bool
   | .cons _ b cs => hasTryL b || hasTryC cs
 end
 
+/-- further scopes the leaf expression enters, nested (harness/cmd/c18 depthLeaves, same order) -/
+def leafExtra (leaf : String) : Option Nat :=
+  match leaf.toNat? with
+  | some n => [0, 1, 2, 2, 2, 1, 0, 0, 1, 1, 0, 2, 1, 2, 2, 1, 1, 1, 1, 1, 2, 1, 2, 0, 1, 0, 1, 0][n]?
+  | none => none
+
 def handle (ws : List String) : String :=
   match ws with
   | ["inject", _k, where_, _vars, prog] =>
@@ -51,21 +57,27 @@ def handle (ws : List String) : String :=
           "escapes-or-caught;rest:ok;trace:any;follow:ok " ++ spec ++ " trycatch_foreign"
         else spec ++ " " ++ spec ++ " -"
     | _ => "bad-op"
-  | ["depth", l, d, leaf] =>
+  | "depth" :: l :: d :: leaf :: rest =>
     -- d script calls, the innermost of which enters `extra` further nested scopes (a native function,
-    -- a native calling back into script, call/apply + target …): a chain of d + extra nested calls
-    let extra : Option Nat := match leaf with
-      | "0" => some 0 | "1" => some 1 | "2" => some 2 | "3" => some 2 | "4" => some 2 | "5" => some 1 | _ => none
-    match l.toNat?, d.toNat?, extra with
-    | some L, some (d+1), some x =>
-      let out := (runAct L (nest (d + x)) [0]).2
+    -- a native calling back into script, call/apply + target, constructors, getters, eval …): a chain of
+    -- d + extra nested calls, started from the scope chain the API entry leaves: Run / Eval / Otto.Call
+    -- enter a global scope first ([0]); Value.Call / Object.Call with nothing running do not ([])
+    let extra : Option Nat := leafExtra leaf
+    let start : Option Stack := match rest with
+      | [] | ["run"] | ["eval"] | ["ottocall"] => some [0]
+      | ["valuecall"] | ["objectcall"] => some []
+      | _ => none
+    match l.toNat?, d.toNat?, extra, start with
+    | some L, some (d+1), some x, some st =>
+      let out := (runAct L (nest (d + x)) st).2
       let tok := match out with
         | .done => "ok;rest:ok;follow:ok"
         | _ => "RangeError;catchable;rest:ok;follow:ok"
-      -- spec (property text): the limit admits exactly the configured nesting, i.e. L-1 calls below the global scope
-      let spec := if L = 0 ∨ d + x + 1 < L then "ok;rest:ok;follow:ok" else "RangeError;catchable;rest:ok;follow:ok"
+      -- spec (SetStackDepthLimit: "an upper limit to the depth of the JavaScript stack"): at most L scopes,
+      -- the global one included when the entry has one
+      let spec := if L = 0 ∨ st.length + d + 1 + x ≤ L then "ok;rest:ok;follow:ok" else "RangeError;catchable;rest:ok;follow:ok"
       tok ++ " " ++ spec ++ " -"
-    | _, _, _ => "bad-op"
+    | _, _, _, _ => "bad-op"
   | ["depthseq", l, k, _how] =>
     -- k stack overflows caught one after the other inside ONE Run (by the script's try/catch or by a host
     -- function swallowing Value.Call's error), each followed by a probe of how deep calls may nest
